@@ -187,6 +187,18 @@ def stateless (w : List String) : Option String :=
     some s!"class={cls} zone={boolStr (resolveRecordsZone ⟨false, false, false, .none⟩ false false res)}"
   | "fail" :: "l3shed" :: _ => some "unmodelled"
   | "fail" :: "l3trunc" :: _ => some "unmodelled"
+  | ["fail", "qs", outcome] => do
+    let (at_, res) ← (
+      if outcome.startsWith "reply" then (outcome.drop 5).toString.toNat?.map (fun rc => (Attempt.reply rc, s!"resp:{rc}"))
+      else if outcome == "drop" then some (Attempt.silent, "err")
+      else if outcome == "attempt" then some (Attempt.refused .attemptLimit, "local")
+      else if outcome == "work" then some (Attempt.refused .workLimit, "local")
+      else if outcome == "ended" || outcome == "pastdeadline" then some (Attempt.endedBefore, "local")
+      else if outcome == "cancelmid" || outcome == "deadlinemid" then some (Attempt.endedDuring, "local")
+      else none)
+    let feed := match breakerFeed at_ with
+      | .failure => "failure" | .success => "success" | .nothing => "none"
+    some s!"feed={feed} result={res}"
   | ["fail", "nss6", _ledger, n] =>
     -- every AAAA sub-lookup of the optional job runs under `v6JobCtx`
     if (v6JobCtx ⟨false, false, false, .none⟩).bestEffort then some s!"asked={n} besteffort={n}" else some s!"asked={n} besteffort=0"
